@@ -239,6 +239,7 @@ VArith(op, a, b) ==
     [] op = "rmul" -> Good(OpMul(PConst(b.v), a.p), a.z)
     [] op = "neg"  -> Good(OpNeg(a.p), a.z)
     [] op = "pos"  -> Good(OpPos(a.p), a.z)
+    [] op = "compose" -> Good(OpCompose(a.p, b.p), a.z)      \* self(other): Poly(sum(coeff * value ** power ...), self.zero)
 DArith(op, a, b) ==
   CASE op \in {"add", "radd"} -> Good(DefAdd(a.p, AsP(b)), a.z)
     [] op = "sub"  -> Good(DefSub(a.p, AsP(b)), a.z)
@@ -246,6 +247,7 @@ DArith(op, a, b) ==
     [] op \in {"mul", "rmul"} -> Good(DefMul(a.p, AsP(b)), a.z)
     [] op = "neg"  -> Good(DefNeg(a.p), a.z)
     [] op = "pos"  -> Good(a.p, a.z)
+    [] op = "compose" -> Good(DefCompose(a.p, b.p), a.z)
 
 \* ---- __truediv__ ------------------------------------------------------------------------------
 VDiv(a, b) ==
@@ -272,8 +274,9 @@ DDiv(a, b) ==
 \* ---- __pow__ ----------------------------------------------------------------------------------
 \* exponent: [k |-> "int", v |-> Int] | [k |-> "poly", p |-> polynomial with integer coefficients]
 \* NegPowRefuses: TRUE = a negative exponent on a polynomial of several terms raises (the behaviour the
-\* specification demands); FALSE = the pinned code: `[self.copy()] * (other - 1)` is the empty list for
-\* other <= 0 and reduce() over [self] alone returns self  (kept as a sensitivity switch)
+\* specification demands); FALSE = the pinned code: the list of copies `[self.copy() for unused in
+\* xrange(other - 1)]` is empty for other <= 0 and reduce() over [self] alone returns self  (kept as a
+\* sensitivity switch)
 ExpGeneral(n) == n.k = "poly" /\ ~(DOMAIN n.p \subseteq {0})
 ExpVal(n)     == IF n.k = "poly" THEN PCoef(n.p, 0)[1] ELSE n.v            \* other = other[0]
 VPow(a, n, NegPowRefuses) ==
@@ -303,8 +306,8 @@ PowIsPower(a, n, r, V) ==
 \* key k * e (an integer-valued float product is stored as an int by the constructor), coefficient
 \* `1 if v == 1 else v ** other` -- a float unless it is the kept 1
 RootCands == {Norm(n, d) : n \in 1..12, d \in 1..12}
-ExactRoot(c, q) == CHOOSE r \in RootCands : RPow(r, q) = c
-HasExactRoot(c, q) == \E r \in RootCands : RPow(r, q) = c
+ExactRoot(c, q) == IF q = 1 THEN c ELSE CHOOSE r \in RootCands : RPow(r, q) = c
+HasExactRoot(c, q) == q = 1 \/ \E r \in RootCands : RPow(r, q) = c
 VPowF(k, c, e) ==
   [key   |-> RMul(R(k), e),
    coef  |-> IF c = ROne THEN ROne ELSE RPow(ExactRoot(c, e[2]), e[1]),
